@@ -135,6 +135,10 @@ pub struct HandlerRunner {
     /// the datagram being delivered is a handshake for which this node has no challenge outstanding
     /// (for that node id at that source address)
     cur_hs_unchallenged: bool,
+    /// the WHOAREYOU being delivered echoes the nonce of a request that already has its outcome
+    cur_wru_finished: bool,
+    /// (node, peer, address) -> sequence number of the record the application supplied as known
+    known_seq: HashMap<(u64, u64, SocketAddr), u64>,
     /// whether the datagram being delivered carries a ciphertext that verifies under a known key
     cur_authentic: bool,
     ttl_ms: u64,
@@ -178,6 +182,8 @@ impl Default for HandlerRunner {
             wire_dst_hint: None,
             cur_wru_foreign: false,
             cur_hs_unchallenged: false,
+            cur_wru_finished: false,
+            known_seq: HashMap::new(),
             cur_authentic: true,
             ttl_ms: 86_400_000,
             old_keys_mark: 0,
@@ -572,6 +578,16 @@ impl HandlerRunner {
                         }
                     }
                     let dh = self.delivering_handshake;
+                    if dh {
+                        // C12: the record a session is reported with is never older than the one the
+                        // application supplied with its WHOAREYOU answer
+                        let who = self.id_idx(&enr.node_id());
+                        if let Some(ks) = self.known_seq.get(&(idx, who, addr)) {
+                            if enr.seq() < *ks {
+                                out.push(format!("!MON C12 established-with-older-record-than-known node={} peer={} seq={} known-seq={}", idx, who, enr.seq(), ks));
+                            }
+                        }
+                    }
                     self.mon_identity(idx, &enr.node_id(), addr, dh, "established", out);
                     if self.delivering_handshake {
                         self.mon_fresh_challenge(idx, out);
@@ -703,6 +719,9 @@ impl HandlerRunner {
             let term = self.describe(&bytes, dst_idx, idx, true).unwrap_or_else(|| "?".into());
             if self.cur_wru_foreign && term.starts_with("H~") {
                 out.push(format!("!MON C03 whoareyou-from-foreign-address-acted-on node={}", idx));
+            }
+            if self.cur_wru_finished && term.starts_with("H~") {
+                out.push(format!("!MON C03 whoareyou-for-request-no-longer-in-flight-acted-on node={}", idx));
             }
             if let Some((_, k_rcp)) = self.last_hs_keys {
                 // the initiator's session lives at the address its handshake goes to
@@ -1056,6 +1075,7 @@ impl HandlerRunner {
         // timers do while time passes afterwards
         self.cur_wru_foreign = false;
         self.cur_hs_unchallenged = false;
+        self.cur_wru_finished = false;
         for &dt in dts {
             if dt == 0 {
                 continue;
@@ -1099,6 +1119,7 @@ impl HandlerRunner {
             self.cur_authentic = true;
             self.cur_wru_foreign = false;
             self.cur_hs_unchallenged = false;
+            self.cur_wru_finished = false;
         }
         match t {
             // application of node X sends a request to node Y
@@ -1152,6 +1173,11 @@ impl HandlerRunner {
                 let na = self.na(&r.0);
                 let nn = self.name_nonce(&r.message_nonce(), 0);
                 let rec = match &known { Some(e) => self.rec(e), None => "none".into() };
+                if let Some(e) = &known {
+                    self.known_seq.insert((xidx0, who, r.0.socket_addr), e.seq());
+                } else {
+                    self.known_seq.remove(&(xidx0, who, r.0.socket_addr));
+                }
                 let _ = self.nodes[xi].to_handler.send(HandlerIn::WhoAreYou(r, known));
                 stats.bump("h.op.wru");
                 self.finish(Some(xi), Some(format!("appwru {} {} {}", na, nn, rec)), 1, out, stats);
@@ -1245,6 +1271,24 @@ impl HandlerRunner {
                             }).map(|w| w.dst).collect();
                             if !went_to.is_empty() && !went_to.contains(&src) {
                                 self.cur_wru_foreign = true;
+                            }
+                            // which request is that, and does it already have its outcome?
+                            let echoed: Vec<Vec<u8>> = self.wire.iter().filter(|w| w.from_idx == tidx).filter(|w| {
+                                packet_decode(&w.dst_id, ProtocolIdentity::default(), &w.bytes).map(|(q, _)| q.nonce == p.nonce && !matches!(q.kind, PacketKind::WhoAreYou { .. })).unwrap_or(false)
+                            }).map(|w| w.bytes.clone()).collect();
+                            for wb in echoed {
+                                let dsti = self.wire.iter().find(|w| w.bytes == wb).map(|w| self.id_idx_ro(&w.dst_id)).unwrap_or(0);
+                                if let Some(t2) = self.describe(&wb, dsti, tidx, false) {
+                                    if let Some(i) = t2.find("|req/") {
+                                        if let Some(r) = t2[i + 5..].split('/').next().and_then(|x| x.parse::<u64>().ok()) {
+                                            if let Some(l) = self.ledger.reqs.get(&(tidx, r)) {
+                                                if l.done || l.failures > 0 {
+                                                    self.cur_wru_finished = true;
+                                                }
+                                            }
+                                        }
+                                    }
+                                }
                             }
                         }
                     }
@@ -1360,6 +1404,8 @@ impl HandlerRunner {
                     let a: usize = arg.parse().unwrap_or(0);
                     match *how {
                         "flip" => { if !b.is_empty() { let i = a / 8 % b.len(); b[i] ^= 1 << (a % 8); } }
+                        // one bit in the last eight bytes (the tail of the sealed message)
+                        "fliptail" => { if !b.is_empty() { let n = b.len(); let i = n - 1 - (a / 8 % n.min(8)); b[i] ^= 1 << (a % 8); } }
                         "trunc" => { b.truncate(a % (b.len() + 1)); }
                         "extend" => { b.extend_from_slice(&vec![0x5a; a % 40 + 1]); }
                         "authpad" => {
@@ -1537,6 +1583,26 @@ pub fn gen_case(rng: &mut Rng, tier: &str, profile: &str, stats: &mut Stats) -> 
     // C15: the session timeout (300 ms, real time) is deliberately shorter than the request timeout
     let timeout = if c15 { 1000 } else { 400 };
     let dual_redirect = (profile == "C02" || profile == "C01" || profile == "C03") && rng.chance(1, 6);
+    // every record advertises another port than the one its node really uses (as behind a NAT)
+    let nat_replay = !dual_redirect && (profile == "C01" || profile == "C03") && rng.chance(1, 6);
+    if nat_replay {
+        // directed case: the handshake of such a node is accepted (signature good, record does not
+        // verify against the observed socket) and is then presented again, and again
+        stats.bump("gen.cases.directed-replay-after-unverifiable");
+        let x = rng.range(1, n);
+        let y = if x == 1 { 2 } else { 1 };
+        ops.push(format!("hworld {} {} {} 1000 86400000 {}", n, retries, timeout, "1".repeat(n as usize)));
+        ops.push(format!("hreq {} {} enr 1 {}", x, y, rng.range(1, 4)));
+        ops.push("hdel next".into());
+        ops.push(format!("hwru {} next {}", y, if rng.chance(1, 2) { "none" } else { "stale" }));
+        ops.push("hdel next".into());
+        ops.push("hdel next".into());
+        ops.push("hdel 2".into());
+        if rng.chance(1, 2) { ops.push("hadv 30".into()); ops.push("hdel 2".into()); }
+        for _ in 0..rng.range(0, 6) { ops.push("hdel next".into()); }
+        ops.push("hquiet".into());
+        return ops;
+    }
     if c15 {
         // short real-time session timeout, small cache
         ops.push(format!("hworld {} {} {} {} 300", n, retries, timeout, rng.range(1, 3)));
@@ -1664,6 +1730,36 @@ pub fn gen_case(rng: &mut Rng, tier: &str, profile: &str, stats: &mut Stats) -> 
             ops.push("hdel last".into());
         }
         emitted += 8;
+    }
+    if profile == "C03" && !dual_redirect && rng.chance(1, 6) {
+        // directed prefix: the handshake answering a challenge arrives with a damaged message body
+        // (signature and record intact); the same bytes are then presented again
+        stats.bump("gen.cases.directed-damaged-handshake-replayed");
+        let x = rng.range(1, n);
+        let y = other(rng, x);
+        ops.push(format!("hreq {} {} enr {} {}", x, y, rid, rng.range(1, 4))); rid += 1;
+        ops.push("hdel next".into());
+        ops.push(format!("hwru {} next {}", y, if rng.chance(1, 2) { "known" } else { "none" }));
+        ops.push("hdel next".into());
+        ops.push(format!("hmut next fliptail {}", rng.below(64)));
+        ops.push("hdel last".into());
+        ops.push("hdel skip".into());
+        ops.push("hdel last".into());
+        if rng.chance(1, 2) { ops.push("hdel last".into()); }
+        emitted += 4;
+    }
+    if profile == "C12" && rng.chance(1, 5) {
+        // directed prefix: a node answers a challenge with a handshake that carries an older record
+        // of itself than the one the challenger already knows
+        stats.bump("gen.cases.directed-older-record-in-handshake");
+        let y = rng.range(1, n);
+        let x = other(rng, y);
+        ops.push(format!("hcraft random {} {}", x, y));
+        ops.push(format!("hdel last {}", x));
+        ops.push(format!("hwru {} next known", y));
+        ops.push(format!("hcraft handshake {} {} {} w stale:{} 1", x, x, y, x));
+        ops.push(format!("hdel last {}", x));
+        emitted += 3;
     }
     if (profile == "C03" && rng.chance(1, 4)) || rng.chance(1, 16) {
         // directed prefix: a request has done its handshake and is unanswered; the session is
